@@ -7,6 +7,7 @@ import (
 	"fmt"
 	"io"
 	"net"
+	"runtime"
 	"strings"
 	"sync"
 	"testing"
@@ -32,7 +33,7 @@ var (
 		"plain HTTP requests (method, target with escapes and query, 0-5 header fields incl. repeated ones, Content-Length or chunked body up to "+
 			"64 KiB) sent to the bridge backend's port; oracle: a recording raw backend receives the same request line, Host, field values and body")
 	recN = vh.NewRecorder("C15", "netconn",
-		"write-size and read-size vectors over connection.WebsocketNetConn on an in-memory websocket pair (in-process); oracle: bytes read == bytes written")
+		"write-size and read-size vectors over 1-4 connection.WebsocketNetConn pairs used at the same time in one process (in-process); oracle: bytes read == bytes written")
 )
 
 func TestMain(m *testing.M) { vh.Main(m, recS, recP, recN) }
@@ -465,9 +466,14 @@ func TestPropPassthrough(t *testing.T) {
 
 // ------------------------------------------------------------ WebsocketNetConn in-process
 
-type NetCase struct {
+type NetConnCase struct {
 	Writes []int `json:"writes"`
 	Reads  []int `json:"reads"`
+}
+
+// NetCase is 1-4 WebsocketNetConn pairs used at the same time in one process.
+type NetCase struct {
+	Conns []NetConnCase `json:"conns"`
 }
 
 func netPair() (a, b net.Conn, cleanup func(), err error) {
@@ -490,19 +496,17 @@ func netPair() (a, b net.Conn, cleanup func(), err error) {
 	return a, b, func() { a.Close(); sc.Close(); srv.Close() }, nil
 }
 
-func runNet(c *NetCase) vh.Outcome {
-	o := vh.Outcome{NonTrivial: len(c.Writes) >= 2}
+func runNetOne(k int, c *NetConnCase) error {
 	a, b, cleanup, err := netPair()
 	if err != nil {
-		o.Inconclusive = err.Error()
-		return o
+		return nil
 	}
 	defer cleanup()
 	total := 0
 	for _, w := range c.Writes {
 		total += w
 	}
-	data := vh.Payload(fmt.Sprint(c.Writes), total)
+	data := vh.Payload(fmt.Sprint(k, c.Writes), total)
 	go func() {
 		off := 0
 		for _, w := range c.Writes {
@@ -511,35 +515,71 @@ func runNet(c *NetCase) vh.Outcome {
 		}
 	}()
 	var got bytes.Buffer
-	b.SetDeadline(time.Now().Add(20 * time.Second))
+	b.SetDeadline(time.Now().Add(60 * time.Second))
 	for i := 0; got.Len() < total; i++ {
 		n := 4096
 		if len(c.Reads) > 0 {
 			n = c.Reads[i%len(c.Reads)]
 		}
-		buf := make([]byte, n)
-		k, err := b.Read(buf)
-		got.Write(buf[:k])
-		if err != nil {
-			o.Err = fmt.Errorf("read error after %d of %d bytes: %v", got.Len(), total, err)
-			return o
+		if total > 20000 && n < 100 {
+			n = 100 // byte-wise reading of large streams only costs time
 		}
-		if n > 0 && k == 0 && i > 10*total+100 {
-			o.Err = fmt.Errorf("Read keeps returning 0 bytes")
-			return o
+		buf := make([]byte, n)
+		r, err := b.Read(buf)
+		got.Write(buf[:r])
+		if err != nil {
+			return fmt.Errorf("connection %d: read error after %d of %d bytes: %v", k, got.Len(), total, err)
+		}
+		if n > 0 && r == 0 && i > 10*total+100 {
+			return fmt.Errorf("connection %d: Read keeps returning 0 bytes", k)
+		}
+		if k%2 == 1 && i%16 == 0 {
+			runtime.Gosched() // let the other connections interleave
 		}
 	}
 	if !bytes.Equal(got.Bytes(), data) {
-		o.Err = fmt.Errorf("WebsocketNetConn altered the stream: wrote %d bytes, read %d bytes, first difference at %d (writes %v, reads %v)", total, got.Len(), firstDiff(got.Bytes(), data), c.Writes, c.Reads)
+		return fmt.Errorf("connection %d of %d: WebsocketNetConn altered the stream: wrote %d bytes, read %d bytes, first difference at %d (writes %v, reads %v)", k, 0, total, got.Len(), firstDiff(got.Bytes(), data), c.Writes, c.Reads)
+	}
+	return nil
+}
+
+func runNet(c *NetCase) vh.Outcome {
+	o := vh.Outcome{}
+	errs := make([]error, len(c.Conns))
+	var wg sync.WaitGroup
+	for k := range c.Conns {
+		k := k
+		if len(c.Conns[k].Writes) >= 2 {
+			o.NonTrivial = true
+		}
+		wg.Add(1)
+		go func() {
+			defer wg.Done()
+			errs[k] = runNetOne(k, &c.Conns[k])
+		}()
+	}
+	wg.Wait()
+	if len(c.Conns) > 1 {
+		o.Classes = append(o.Classes, "several-connections-in-one-process")
+	}
+	for _, e := range errs {
+		if e != nil {
+			o.Err = e
+			break
+		}
 	}
 	return o
 }
 
 func TestPropNetConn(t *testing.T) {
 	vh.Rapid(t, vh.Scale(300, 5000), func(rt *rapid.T) {
-		c := NetCase{
-			Writes: rapid.SliceOfN(rapid.SampledFrom([]int{0, 1, 2, 511, 512, 513, 1023, 1024, 1025, 2048, 5000}), 1, 8).Draw(rt, "writes"),
-			Reads:  rapid.SliceOfN(rapid.SampledFrom([]int{1, 2, 3, 7, 512, 1024, 4096}), 0, 4).Draw(rt, "reads"),
+		var c NetCase
+		n := rapid.SampledFrom([]int{1, 1, 2, 3, 4}).Draw(rt, "nconns")
+		for i := 0; i < n; i++ {
+			c.Conns = append(c.Conns, NetConnCase{
+				Writes: rapid.SliceOfN(rapid.SampledFrom([]int{0, 1, 2, 511, 512, 513, 1023, 1024, 1025, 2048, 5000, 40000}), 1, 8).Draw(rt, "writes"),
+				Reads:  rapid.SliceOfN(rapid.SampledFrom([]int{1, 2, 3, 7, 100, 512, 1024, 4096}), 0, 4).Draw(rt, "reads"),
+			})
 		}
 		recN.Check(rt, &c, func() vh.Outcome { return runNet(&c) })
 	})
